@@ -39,9 +39,17 @@ import (
 	"github.com/evstack/ev-node/types"
 )
 
-// LibraryTrustingPeriodHours: go-header's default as the LINKED library states it (sync/options.go DefaultParameters:
-// 336 h in v0.6.6); ev-node passes no trusting period to NewSyncer, so this is what the unchanged tree runs with.
-var LibraryTrustingPeriodHours = uint64(goheadersync.DefaultParameters().TrustingPeriod / time.Hour)
+// ConfiguredTrustingPeriodHours: the trusting period the NODE is to configure for the go-header syncer (since /repo
+// 700919b pkg/sync/sync_service.go passes goheadersync.WithTrustingPeriod(headTrustingPeriod), 100*365*24 h: the stored
+// head never stops being the anchor of verification). It is written into every op line (tp=) so that the Lean driver
+// runs the model with it; it is NOT read from the node: the real service is held to it by behaviour - for every
+// generated age below it (up to ~91 years) a foreign head must be refused, so any shorter configured period (the
+// library default of 336 h before the fix, a "tuned" 24 h) shows up as a monitor violation AND a correspondence diff.
+const ConfiguredTrustingPeriodHours = 100 * 365 * 24
+
+// OldLibraryDefaultHours: go-header's default as the LINKED library states it (336 h in v0.6.6): what the tree ran with
+// before /repo 700919b. Only used to choose ages on both sides of it.
+var OldLibraryDefaultHours = uint64(goheadersync.DefaultParameters().TrustingPeriod / time.Hour)
 
 // retime shifts the header's time by delta, fixes the hash link to `link` when the template linked to `oldLink`, and
 // re-signs with the key the header carries when the template's signature verified under that key (keys known to the
@@ -181,9 +189,10 @@ func (w *World) runStale(head, offered *types.SignedHeader) (*types.SignedHeader
 
 func (w *World) opStale(c *hx.Ctx, o hx.Op) {
 	age, okA := o.U64("age")
+	tp, okT := o.U64("tp")
 	now := o.I64("now")
 	head, offered := new(types.SignedHeader), new(types.SignedHeader)
-	if !okA || now == 0 || head.UnmarshalBinary(o.Bytes("head")) != nil {
+	if !okA || !okT || now == 0 || head.UnmarshalBinary(o.Bytes("head")) != nil {
 		c.Emit("bad-op")
 		return
 	}
@@ -246,7 +255,8 @@ func (w *World) opStale(c *hx.Ctx, o hx.Op) {
 		case string(x.ProposerAddress) == string(w.env.Gen.ProposerAddress):
 			// names the proposer but does not carry the proposer's signature: Validate() would have rejected it
 			c.Report("C03/p2p-store/head-answer-stored-without-validate/"+kind, what)
-		case age > LibraryTrustingPeriodHours:
+		case age > tp:
+			// by the letter only: the head is older than the period the node configures (100 years); not generated
 			c.Report("C03/p2p-store/foreign-head-adopted-after-trusting-period", what)
 		default:
 			c.Report("C03/p2p-store/foreign-head-adopted-within-trusting-period", what)
@@ -308,22 +318,26 @@ func genStale(r *hx.Rng, tier string, w io.Writer, c *chain) {
 		if head.UnmarshalBinary(hb) != nil {
 			return
 		}
-		fmt.Fprintf(w, "p2pstale age=%d tp=%d now=%d head=%s tkeyok=1 %s\n", age, LibraryTrustingPeriodHours, staleNow, hx.Hex(hb), blobArgsLib(staleOffers(c, head)[kind]))
+		fmt.Fprintf(w, "p2pstale age=%d tp=%d now=%d head=%s tkeyok=1 %s\n", age, uint64(ConfiguredTrustingPeriodHours), staleNow, hx.Hex(hb), blobArgsLib(staleOffers(c, head)[kind]))
 	}
-	// fixed part: the recorded finding, its neighbours, and what a shortened trusting period would change
+	// fixed part: the former finding (head older than the library's default period), its neighbours, what a shortened
+	// period would change, and ages far beyond anything a shorter configured period could cover (800000 h = 91 years:
+	// the head's time is before 1970, a negative Unix time)
 	line(400, "b-selfsigned-foreign-proposer")
 	line(25, "b-selfsigned-foreign-proposer")
 	line(300, "b-selfsigned-foreign-proposer")
 	line(1, "b-selfsigned-foreign-proposer")
+	line(20000, "b-selfsigned-foreign-proposer")
+	line(800000, "b-selfsigned-foreign-proposer")
 	line(25, "a-genuine")
+	line(20000, "a-genuine")
 	line(400, "c-unsigned-naming-proposer")
-	line(25, "c-unsigned-naming-proposer")
 	extra := 2
 	if tier == "thorough" {
 		extra = 14
 	}
 	kinds := []string{"a-genuine", "b-selfsigned-foreign-proposer", "c-unsigned-naming-proposer", "d-foreign-key-proposer-address"}
-	ages := []int64{1, 2, 12, 23, 25, 48, 100, 167, 169, 300, 335, 337, 400, 1000}
+	ages := []int64{1, 2, 12, 23, 25, 48, 100, 167, 169, 300, 335, 337, 400, 1000, 5000, 20000, 100000, 800000}
 	for i := 0; i < extra; i++ {
 		line(ages[r.Intn(len(ages))], kinds[r.Intn(len(kinds))])
 	}
